@@ -54,7 +54,7 @@ claimed = {
         "serverCodec.WriteResponse against the wire spec functions of C07), the server answers a request from the same context object (same Seq, same Error text); (c) read looks the call up by the header's "
         "sequence number under the lock, a call object is written only by the holder of its completion token, and finishCall copies the reply bytes of that same response into the call's own buffer and decodes them into that call's Reply, once.",
    note=TRUST+"Byte-stream framing/fragmentation lives in hslam/socket (assumed); body codecs and the non-default header encoders are interface contracts (assumed) on the Write/Read paths; "
-        "that sequence numbers are unique per connection relies on the assumed no-wrap bound of the 64-bit counter; the end-to-end statement over all interleavings is the composition of these per-function facts, which is argued in DESIGN.md, not machine-checked as one theorem.",
+        "that sequence numbers are unique per connection relies on the assumed no-wrap bound of the 64-bit counter; the header decoders are not proved functionally: the bounded stand-in bounded/header_roundtrip_test.go also runs under this check (labelled bounded, not counted); the end-to-end statement over all interleavings is the composition of these per-function facts, which is argued in DESIGN.md, not machine-checked as one theorem.",
    design="5/C01", technique="contract-based deductive verification: lock invariant, lockset, call-site assertions and wire-format postconditions as generated obligations, z3"),
  "C02": dict(
    text="Deductive proof of at-most-once completion by linear ghost tokens: a call's token is created once by the front-end (Go/Call/CallWithContext/Ping/closeStream, or owned by the caller of RoundTrip), handed to the pending table "
